@@ -1963,8 +1963,13 @@ class EdgeQLSourceGenerator(codegen.SourceGenerator):
 
         keywords = []
         keywords.extend(['TRIGGER'])
+        # Unlike DDL, SDL accepts a module-qualified trigger name.
         self._visit_CreateObject(
-            node, *keywords, after_name=after_name, unqualified=True)
+            node,
+            *keywords,
+            after_name=after_name,
+            unqualified=not self.sdlmode,
+        )
         # This is left hanging from after_name, so that subcommands
         # get double indented
         self.indentation -= 1
